@@ -22,18 +22,23 @@ VALUES = [-1.0, -0.5, 0.0, 0.5, 0.5, 1.0, 1.5, 2.25]
 
 
 # ================================================================================================ generation
-def gen_scripted(rng, style=None) -> dict:
+def gen_scripted(rng, style=None, n_ops=None, allow_then=True) -> dict:
     """One scripted case (see solverkit.run_scripted).  Styles:
     evqe     operator list of 3-6 operators shaped like EVQE's (one operator reports count+result, the others counts)
     protocol arbitrary scripts with at most one result per application
     multi    arbitrary scripts, several results per application allowed (outside the documented callback protocol)
+    On top of the style (independently): the criterion answers with numpy.bool_; best values are numpy.float64; one of
+    the package's own best-individual criteria instead of a scripted one; the solver is constructed with OTHER limits
+    and the case's limits are assigned to solver.configuration before the solve; a second case solved afterwards with
+    the same solver object.
     """
+    forced_ops = n_ops
     style = style or rng.choice(["evqe", "evqe", "protocol", "protocol", "protocol", "multi"])
     n_qubits = 3
     rid = 0
     apps = []
     if style == "evqe":
-        n_ops = rng.randint(2, 5)
+        n_ops = forced_ops or rng.randint(2, 5)
         sel = rng.randrange(n_ops)
         passes = rng.randint(1, 5)
         silent = {k for k in range(n_ops) if k != sel and rng.random() < 0.3}
@@ -48,7 +53,7 @@ def gen_scripted(rng, style=None) -> dict:
                     evs.append(["count", rng.choice([0, 1, 5, 7, 12])])
                 apps.append(dict(events=evs, ret=len(apps) + 1))
     else:
-        n_ops = rng.randint(1, 4)
+        n_ops = forced_ops or rng.randint(1, 4)
         for _ in range(rng.randint(1, 10)):
             evs = []
             had_result = False
@@ -74,8 +79,29 @@ def gen_scripted(rng, style=None) -> dict:
         p = rng.choice([0.0, 0.2, 0.5, 1.0])
         crit = [rng.random() < p for _ in range(rng.randint(0, rid + 1))]
     aux = rng.choice([None, None, {"list": []}, {"list": [1, 2]}, {"list": [3]}, {"dict": [["a", 1], ["b", 2]]}, {"dict": []}])
-    return dict(kind="scripted", style=style, n_ops=n_ops, n_qubits=n_qubits, max_generations=max_gen, max_evals=max_evals,
+    case = dict(kind="scripted", style=style, n_ops=n_ops, n_qubits=n_qubits, max_generations=max_gen, max_evals=max_evals,
                 criterion=crit, init=rng.choice([None, None, 0, 3, 5, 6]), aux=aux, pop0=0, apps=apps, estimates=estimates)
+    if crit is not None and rng.random() < 0.4:
+        case["criterion_np"] = True            # truthy / falsy numpy.bool_ answers instead of the bool singletons
+    if rng.random() < 0.3:
+        case["np_values"] = True               # numpy.float64 best values (what the sampler path reports)
+    if crit is not None and style != "multi" and rng.random() < 0.25:
+        kind = rng.choice(["change", "relative", "threshold"])
+        case["real_criterion"] = dict(kind=kind, violations=rng.choice([0, 0, 1]),
+                                      x={"change": rng.choice([0.25, 0.6, 1.1, 5.0]), "relative": rng.choice([0.3, 0.9, 1.0]), "threshold": rng.choice([-0.75, 0.25, 1.25])}[kind])
+        case["criterion"] = None               # replaced by what the built-in criterion is observed to answer
+        case.pop("criterion_np", None)
+        case["np_values"] = rng.random() < 0.75
+    if rng.random() < 0.3:
+        l0 = dict(max_generations=rng.choice([None, 0, 1, 5, 50]), max_evals=rng.choice([None, 0, 3, 1000]),
+                  criterion=rng.choice([None, None, [True], [False, False, True]]))
+        if l0["max_generations"] is None and l0["max_evals"] is None and l0["criterion"] is None:
+            l0["max_generations"] = 7           # the configuration constructor insists on one limit
+        case["construct_limits"] = l0
+    if allow_then and rng.random() < 0.15:
+        case["then"] = gen_scripted(rng, n_ops=n_ops, allow_then=False)
+        case["then"].pop("construct_limits", None)
+    return case
 
 
 def enumerate_small(max_events=4):
@@ -359,36 +385,55 @@ def limits_of(case):
     return dict(max_generations=case.get("max_generations"), max_evals=case.get("max_evals"), criterion=case.get("criterion"))
 
 
+def has_limit(case) -> bool:
+    return any(case.get(k) is not None for k in ("max_generations", "max_evals", "criterion", "real_criterion"))
+
+
 def run_scripted_case(ctx, pid: str, case: dict, strict_multi: bool):
-    """Run one scripted case on the implementation, evaluate the clauses of property `pid`, return the Gallina literal."""
+    """Run one scripted case (and its "then" case with the same solver object) on the implementation, evaluate the clauses
+    of property `pid` on every solve against the limits in force when that solve was called.
+    Returns a list of (obs, gallina literal | None), one per solve; [] if the harness objects failed."""
     try:
-        obs = sk.run_scripted(case)
+        obs_all = sk.run_scripted(case)
     except Exception as e:  # the harness objects themselves failed: report as an implementation exception
         ctx.violation("oracle", f"harness-exception-{type(e).__name__}", f"scripted run raised outside the solver: {type(e).__name__}: {e}", case)
-        return None, None
-    out = obs["outcome"]
-    single = is_single_result(obs["items"])
-    if "err" in out and out["err"] not in (NOTHING, "ScriptExhausted", "Boom"):
-        ctx.violation("oracle", f"unexpected-exception-{out['err']}", f"solve raised {out['err']}: {out.get('msg')}", case)
-    if pid == "C05":
-        bad = oracle_c05(limits_of(case), obs, strict_shape=False) + oracle_c05_tokens(case, obs)
-    else:
-        bad = oracle_c12(limits_of(case), obs, protocol_only=not strict_multi)
-    for key, msg in bad:
-        ctx.violation("oracle", key, msg, case, detail=dict(items=obs["items"], outcome=out))
-    if case.get("criterion") is not None and obs.get("criterion_resets") != 1:
-        ctx.violation("correspondence", "criterion-reset", f"the criterion was reset {obs.get('criterion_resets')} times in one solve (the model assumes: once, at the start)", case)
-    ctx.tally(f"scripted:{case.get('style')}")
-    ctx.tally("outcome:" + ("ok" if "ok" in out else out["err"]))
-    ctx.tally("limits:" + "+".join(k for k, v in (("gen", case.get("max_generations")), ("evals", case.get("max_evals")), ("crit", case.get("criterion"))) if v is not None))
-    if not single:
-        ctx.tally("multi-result-application")
-    if criterion_overwrite_witness(obs["items"]):
-        # outside the callback protocol AND the one place where a repair of the loop (or-ing the answers) would
-        # legitimately differ from the model: not compared with the model (C12_criterion_stops_needs_single_result)
-        ctx.tally("skipped-model-comparison:criterion-terminate-mid-application")
-        return obs, None
-    return obs, g_case(case, obs)
+        return []
+    solves = [(case, obs_all)] + ([(case["then"], obs_all["then"])] if "then" in obs_all else [])
+    res = []
+    for which, (c, obs) in enumerate(solves):
+        nth = "" if which == 0 else " (second solve with the same solver object, limits reassigned on solver.configuration)"
+        if c.get("real_criterion") is not None:   # the criterion script of the model = what the built-in criterion answered
+            c = dict(c, criterion=[it[4] for it in obs["items"] if it[0] == "crit"])
+            for t in obs.get("answer_types", []):
+                ctx.tally("built-in-criterion-answer-type:" + t)
+        out = obs["outcome"]
+        single = is_single_result(obs["items"])
+        if "err" in out and out["err"] not in (NOTHING, "ScriptExhausted", "Boom"):
+            ctx.violation("oracle", f"unexpected-exception-{out['err']}", f"solve raised {out['err']}: {out.get('msg')}{nth}", case)
+        if pid == "C05":
+            bad = oracle_c05(limits_of(c), obs, strict_shape=False) + oracle_c05_tokens(c, obs)
+        else:
+            bad = oracle_c12(limits_of(c), obs, protocol_only=not strict_multi)
+        for key, msg in bad:
+            ctx.violation("oracle", key, msg + nth, case, detail=dict(items=obs["items"], outcome=out, solve=which))
+        if c.get("criterion") is not None and obs.get("criterion_resets") != 1:
+            ctx.violation("correspondence", "criterion-reset", f"the criterion was reset {obs.get('criterion_resets')} times in one solve (the model assumes: once, at the start)", case)
+        ctx.tally(f"scripted:{c.get('style')}")
+        ctx.tally("outcome:" + ("ok" if "ok" in out else out["err"]))
+        ctx.tally("limits:" + "+".join(k for k, v in (("gen", c.get("max_generations")), ("evals", c.get("max_evals")), ("crit", c.get("criterion"))) if v is not None))
+        for k in ("criterion_np", "np_values", "real_criterion", "construct_limits", "then"):
+            if c.get(k):
+                ctx.tally("scripted-feature:" + k)
+        if not single:
+            ctx.tally("multi-result-application")
+        if criterion_overwrite_witness(obs["items"]):
+            # outside the callback protocol AND the one place where a repair of the loop (or-ing the answers) would
+            # legitimately differ from the model: not compared with the model (C12_criterion_stops_needs_single_result)
+            ctx.tally("skipped-model-comparison:criterion-terminate-mid-application")
+            res.append((obs, None))
+        else:
+            res.append((obs, g_case(c, obs)))
+    return res
 
 
 # ================================================================================================ real EVQE runs
@@ -581,12 +626,13 @@ def run_property(ctx, pid: str, strict_multi: bool, n_scripted, n_evqe, enum_eve
     glits, kept = [], []
 
     def scripted(case):
-        obs, g = run_scripted_case(ctx, pid, case, strict_multi)
-        nontrivial = obs is not None and (any(it[0] == "start" for it in obs["items"]) or obs["outcome"].get("err") == NOTHING)
+        solves = run_scripted_case(ctx, pid, case, strict_multi)
+        nontrivial = any(any(it[0] == "start" for it in obs["items"]) or obs["outcome"].get("err") == NOTHING for obs, _ in solves)
         ctx.case(dict(k="s", case={k: v for k, v in case.items() if k != "style"}), nontrivial, sample=case if len(ctx.samples) < 2 else None)
-        if g is not None:
-            glits.append(g)
-            kept.append(case)
+        for _, g in solves:
+            if g is not None:
+                glits.append(g)
+                kept.append(case)
 
     for c in corpus_cases(pid):
         c = c.get("case", c)
@@ -602,7 +648,9 @@ def run_property(ctx, pid: str, strict_multi: bool, n_scripted, n_evqe, enum_eve
             scripted(c)
         ctx.notes["exhaustive_small_scope"] = f"all scripts of <= {enum_events} events over {{count, result(1.0), result(0.0)}}, every split into applications, 5 limit combinations: {len(glits) - n0} cases"
     for i in range(n_evqe):   # every third one: the package-operator solver solving several problems in a row
-        evqe(ctx, pid, sk.random_evqe_setup(ctx.rng, quick=ctx.quick, family="package" if i % 3 == 0 else None), glits, kept, strict_multi)
+        # i % 3 == 1 and some of the others: selection fitness = expectation value x species size and nothing else
+        evqe(ctx, pid, sk.random_evqe_setup(ctx.rng, quick=ctx.quick, family="package" if i % 3 == 0 else None,
+                                            plain_fitness=True if i % 3 == 1 else None), glits, kept, strict_multi)
     bad = core.model_mismatches(pid, IMPORTS, CHECKER[pid], glits, chunk=150)
     for i in bad[:5]:
         shown = None
@@ -655,6 +703,8 @@ def evqe(ctx, pid, setup, glits, kept, strict_multi):
         glits.append(g_case(case, obs))
         kept.append(replay)
     ctx.tally("evqe:" + setup.get("family", "evqe") + ":" + setup["evaluator"])
+    if setup.get("penalty", 0.1) == 0 and (setup["tournament"] or setup.get("positive")):
+        ctx.tally("evqe-plain-fitness:" + ("tournament" if setup["tournament"] else "roulette-positive"))
     ctx.tally(f"evqe-workers:{setup['workers']}")
     first_out = solves[0][0]["outcome"] if solves else None
     ctx.case(dict(k="e", setup=setup), started, sample=None if any(isinstance(x, dict) and "setup" in x for x in ctx.samples) else dict(setup=setup, outcome=first_out))
@@ -664,10 +714,10 @@ def replay_property(ctx, pid, payload, strict_multi):
     c = payload.get("case") or payload.get("failing_input")
     glits, kept = [], []
     if c.get("kind") == "scripted":
-        obs, g = run_scripted_case(ctx, pid, c, strict_multi)
-        if g:
-            glits.append(g)
-        if obs:
+        for k, (obs, g) in enumerate(run_scripted_case(ctx, pid, c, strict_multi)):
+            if g:
+                glits.append(g)
+            print(f"  solve #{k + 1}:")
             for it in obs["items"]:
                 print("  ", it)
             print("  outcome:", obs["outcome"])
@@ -678,4 +728,4 @@ def replay_property(ctx, pid, payload, strict_multi):
         bad = core.model_mismatches(pid + "_replay", IMPORTS, CHECKER[pid], glits)
         print("model-vs-impl:", "DIFFER" if bad else "agree")
         if bad:
-            print("model says:", core.model_show(pid + "_replay", IMPORTS, f"show_case {glits[0]}"))
+            print("model says:", core.model_show(pid + "_replay", IMPORTS, f"show_case {glits[bad[0]]}"))
